@@ -3860,6 +3860,10 @@ func (vm *Thread) opEqualInt() {
 	if left.IsSmallInt() {
 		left := left.AsSmallInt()
 		result = left.EqualVal(right)
+	} else if left.IsFloat() {
+		// the compiler also emits EQUAL_INT for operands of static type Float
+		left := left.AsFloat()
+		result = left.EqualVal(right)
 	} else {
 		leftBig := left.AsReference().(*value.BigInt)
 		result = leftBig.EqualVal(right)
